@@ -571,6 +571,9 @@ func c10Scripts(thorough bool) []c10Script {
 		add(c10Script{Shape: "bidi", Front: front, N: 2, HalfClose: true, R: 1, K: 1, Code: codes.Internal, Msg: "mid", Details: true, MD: "none"})
 		add(c10Script{Shape: "bidi", Front: front, N: 1, HalfClose: false, R: 1, K: 1, Code: ok, MD: "none"})
 		add(c10Script{Shape: "bidi", Front: front, N: 0, HalfClose: true, ReadAll: true, K: 1, Code: ok, MD: "none"})
+		// a back-end that ends a server-streaming call without reading the request: the
+		// proxy's send finds the stream done, the status is what counts
+		add(c10Script{Shape: "ss", Front: front, N: 1, HalfClose: true, R: 0, K: 0, Code: codes.PermissionDenied, Msg: "not for you", MD: "none"})
 		// four messages with different field sets on one stream (a relay that reuses or merges
 		// request messages shows from the third message on)
 		add(c10Script{Shape: "cs", Front: front, N: 4, HalfClose: true, ReadAll: true, K: 1, Code: ok, MD: "none"})
